@@ -20,6 +20,18 @@ def _graphs_for(job):
     return g_raw, None, None
 
 
+def _init_refused(G):
+    """rex refuses to initialise a compiled graph in which some node's output is never read inside the horizon ("Buffer size for node
+    `x` is 0."): such an instance cannot be run at all (outside the properties, DESIGN 10.4). Returns the message or None."""
+    try:
+        G.init(jax.random.PRNGKey(0))
+    except AssertionError as e:
+        if "Buffer size" in str(e):
+            return str(e)
+        raise
+    return None
+
+
 def static_job(job):
     """Build Graph instances for every (mode, prune) and return their RexSchedule traces."""
     cfg = job["cfg"]
@@ -47,6 +59,10 @@ def static_job(job):
             continue
         if mode == "mcs":
             S_prev = G.S
+        refused = _init_refused(G)
+        if refused:
+            out.setdefault("notes", []).append(f"{mode}/{prune}: Graph.init() refused: {refused} (DESIGN 10.4)")
+            continue
         gs = G.init(jax.random.PRNGKey(0))
         buf = compiled.buffer_sizes_of(gs)
         for e in range(n_eps):
@@ -87,6 +103,10 @@ def run_job(job):
                       progress_bar=False, **kw)
         except (KeyError, NetworkXUnfeasible) as e:
             out.setdefault("notes", []).append(f"{mode}/{prune}: Graph() raised {type(e).__name__} {e} (DESIGN 10.4)")
+            continue
+        refused = _init_refused(G)
+        if refused:
+            out.setdefault("notes", []).append(f"{mode}/{prune}: Graph.init() refused: {refused} (DESIGN 10.4)")
             continue
         tagm = f"{job.get('id', 'job')}/{mode}/{'prune' if prune else 'noprune'}"
         runner = {True: compiled.CompiledRunner(G, nodes, cfg, jit=True), False: compiled.CompiledRunner(G, nodes, cfg, jit=False)}
@@ -168,6 +188,10 @@ def api_job(job):
     G = Graph(nodes=dict(nodes), supervisor=nodes[cfg["sup"]], graphs_raw=g_raw, supergraph=compiled.MODES[mode], prune=prune, progress_bar=False)
     P = G.max_steps + 1
     out = dict(static=[], runs=[], digests=[], checks=[], P=P, n_eps=n_eps)
+    refused = _init_refused(G)
+    if refused:
+        out["skipped"] = f"Graph.init() refused: {refused} (DESIGN 10.4)"
+        return out
     rj = compiled.CompiledRunner(G, nodes, cfg, jit=True)
     re = compiled.CompiledRunner(G, nodes, cfg, jit=False)
     statics = {}
@@ -323,6 +347,11 @@ def c10_e2e_job(job):
                 G = Graph(nodes=dict(nodes), supervisor=nodes[c_["sup"]], graphs_raw=g_raw, supergraph=compiled.MODES[mode], prune=prune, progress_bar=False)
             except (KeyError, NetworkXUnfeasible) as e:
                 out["notes"].append(f"{tag}: Graph() raised {type(e).__name__} {e} (DESIGN 10.4)")
+                res = None
+                break
+            refused = _init_refused(G)
+            if refused:
+                out["notes"].append(f"{tag}: Graph.init() refused: {refused} (DESIGN 10.4)")
                 res = None
                 break
             gs0 = G.init(jax.random.PRNGKey(job.get("seed", 0)))
